@@ -51,10 +51,20 @@ func c01Explore(t *testing.T, r *verifmc.Report, family string, ver trie.TrieLay
 }
 
 func c01ExploreFrom(t *testing.T, r *verifmc.Report, family string, ver trie.TrieLayout, depth int, seed string, hashed bool) {
+	generations := family == "generations"
+	if generations {
+		// the node works on Snapshot()s of the previous block's trie: the same histories with a
+		// "snapshot" step (continue on trie.Snapshot(): copy-on-write of older-generation nodes) and two
+		// DIFFERENT values above the hashing threshold (a hashed value overwritten by another one)
+		family = "short"
+	}
 	keys := c01Keys(family)
 	vals := [][]byte{{}, {0x01}, vVal(0x31, 31), vVal(0x32, 32), vVal(0x33, 33)}
 	if family == "long" {
 		vals = [][]byte{{0x01}, vVal(0x33, 33)}
+	}
+	if generations {
+		vals = [][]byte{{0x01}, vVal(0x33, 33), vVal(0x34, 34)}
 	}
 	var ops []verifmc.Op
 	for _, k := range keys {
@@ -66,6 +76,9 @@ func c01ExploreFrom(t *testing.T, r *verifmc.Report, family string, ver trie.Tri
 		ops = append(ops, vTrieOp{kind: "delete", k: k})
 	}
 	ops = append(ops, vTrieOp{kind: "hash"})
+	if generations {
+		ops = append(ops, vTrieOp{kind: "snapshot"})
+	}
 	h := &verifmc.Hist[*vTrieState]{
 		Fresh: func() *vTrieState {
 			tr := NewEmptyTrie()
@@ -85,7 +98,13 @@ func c01ExploreFrom(t *testing.T, r *verifmc.Report, family string, ver trie.Tri
 			return st
 		},
 		Ops:   func(s *vTrieState) []verifmc.Op { return ops },
-		Apply: func(s *vTrieState, op verifmc.Op) string { return vApplyTrieOp(s, op.(vTrieOp)) },
+		Apply: func(s *vTrieState, op verifmc.Op) string {
+			if op.(vTrieOp).kind == "snapshot" {
+				s.t = s.t.Snapshot()
+				return ""
+			}
+			return vApplyTrieOp(s, op.(vTrieOp))
+		},
 		Check: func(s *vTrieState) string {
 			if d := vDescendantsOK(s.t.root); d != "" {
 				return "Descendants: " + d
@@ -131,7 +150,7 @@ func c01ExploreFrom(t *testing.T, r *verifmc.Report, family string, ver trie.Tri
 func TestVerif_C01(t *testing.T) {
 	r := verifmc.NewReport("C01", "inmemory-root", "model_checking")
 	defer r.Write()
-	r.Rule = "BFS over put/delete/hash histories on the real InMemoryTrie for V0 and V1; short-key alphabet (9 keys x 5 values incl. 31/32/33 bytes) and long-key alphabet (15 keys with 62..66 and 318..322 nibble partial keys); also from 3 populated start states (nested valued branch, empty-key root value, hashed siblings; each with and without cached Merkle values); states deduplicated on the full private node dump; every state compared with the independent spec root, Entries, Descendants, and Layout.Root in two insertion orders"
+	r.Rule = "BFS over put/delete/hash histories on the real InMemoryTrie for V0 and V1; short-key alphabet (9 keys x 5 values incl. 31/32/33 bytes) and long-key alphabet (15 keys with 62..66 and 318..322 nibble partial keys); also from 3 populated start states (nested valued branch, empty-key root value, hashed siblings; each with and without cached Merkle values), and from the same start states histories with a Snapshot() step (continue on the copy-on-write snapshot, as the node does per block) and two different values above the hashing threshold; states deduplicated on the full private node dump; every state compared with the independent spec root, Entries, Descendants, and Layout.Root in two insertion orders"
 	// sanity of the reference itself against constants that do not come from the code under test
 	if got := fmt.Sprintf("%x", ref.TrieRoot(map[string][]byte{}, 0)); got != "03170a2e7597b7b7e3d84c05391d139a62b157e78786d8c082f29dcf4c111314" {
 		t.Fatalf("reference empty root wrong: %s", got)
@@ -148,6 +167,13 @@ func TestVerif_C01(t *testing.T) {
 			}
 		}
 	}
+	dGen := verifmc.Pick(3, 4)
+	for _, ver := range []trie.TrieLayout{trie.V0, trie.V1} {
+		for _, seed := range []string{"nested-valued-branch", "empty-key-root-value", "two-hashed-siblings"} {
+			c01ExploreFrom(t, r, "generations", ver, dGen, seed, true)
+		}
+	}
+	r.Extra["depth_generations"] = dGen
 	r.Extra["depth_from_populated_states"] = dSeed
 	r.Extra["depth_short"] = dShort
 	r.Extra["depth_long"] = dLong
